@@ -67,7 +67,7 @@ def make_form(rng, i):
             if shown in ("image", "audio"):
                 cells[shown] = f"calc{j}." + ("png" if shown == "image" else "mp3")  # media only: still something the user is shown
             place(Row("q", t, f"cv{i}_{j}", cells))
-    k = rng.randrange(8)
+    k = rng.randrange(9)
     if k == 0:  # every type at least sometimes
         for t in rng.sample(sorted(set(ALL_TYPES)), 4):
             cells = {} if t in gen.HIDDEN_TYPES + gen.META_TYPES + ["start-geopoint", "background-audio", "xml-external", "csv-external", "simserial", "subscriberid"] else {"label": f"lbl {t}"}
@@ -130,6 +130,13 @@ def make_form(rng, i):
             f.settings["omit_instanceID"] = "yes"
         if rng.random() < 0.5:
             f.entities = {"list_name": "ent", "label": "concat('e', '1')"}
+    elif k == 8:  # the author's own 'meta' group: with omit_instanceID and nothing else generated there is no generated block, the name is free
+        has_audit = any(r.type == "audit" for r, _ in f.walk())
+        if not has_audit and not f.entities and not f.settings.get("instance_name"):
+            f.settings["omit_instanceID"] = rng.choice(["yes", "true", "TRUE"])
+            f.survey.insert(rng.randint(0, len(f.survey)), Row("group", "begin group", "meta", {"label": "About this record"},
+                            [Row("q", "text", f"my_id{i}", {"label": "record id"}), Row("q", "calculate", "instanceID", {"calculation": "concat('uuid:', uuid())"}),
+                             Row("q", "select_one " + next(iter(f.choices)), f"meta_sel{i}", {"label": "kind"})] if f.choices else [Row("q", "text", f"my_id{i}", {"label": "record id"})]))
     return f
 
 
